@@ -18,7 +18,7 @@ CONSTANTS MaxLen
 
 Vocab == [ atoms |-> [ sl |-> "/", bs |-> "\\", tab |-> "\t", sp |-> " ", lf |-> "\n", dot |-> ".", dd |-> "..", seg |-> "path",
                        evil |-> "evil.com", good |-> "good.example.com", look |-> "evilexample.com", at |-> "@", col |-> ":", port |-> "8443", p80 |-> "80", p443 |-> "443", q |-> "?", h |-> "#",
-                       p2f |-> "%2f", http |-> "http:", https |-> "https:", ctl |-> "{CTL}", nbsp |-> "{NBSP}", amp |-> "&x=" ] ]
+                       p2f |-> "%2f", http |-> "http:", https |-> "https:", HTTPS |-> "HTTPS:", hTtP |-> "hTtP:", v6 |-> "[::1]", v6map |-> "[::ffff:7f00:1]", ctl |-> "{CTL}", nbsp |-> "{NBSP}", amp |-> "&x=" ] ]
 \* {CTL} and {NBSP} stand for the bytes 0x01 and U+00A0 (TLA+ strings cannot spell them); the harness substitutes them
 Tokens == {"sl", "bs", "tab", "sp", "lf", "dot", "dd", "seg", "evil", "good", "look", "at", "col", "port", "q", "h", "p2f", "http", "https", "ctl", "nbsp"}
 
@@ -65,7 +65,7 @@ CutAt(s, T) == LET I == {i \in 1..Len(s) : s[i] \in T} IN IF I = {} THEN s ELSE 
 GoAuthority(rest) == CutAt(CutAt(CutAt(rest, {"h"}), {"q"}), {"sl"})
 \* characters Go refuses anywhere (control bytes) / in userinfo / in a host
 GoCtl(t)         == t \in {"tab", "lf", "ctl"}
-GoBadUserinfo(t) == t \in {"bs", "sp", "nbsp", "sl", "q", "h"}
+GoBadUserinfo(t) == t \in {"bs", "sp", "nbsp", "sl", "q", "h", "v6", "v6map"}     \* [ and ] are not valid userinfo bytes
 GoBadHost(t)     == t \in {"bs", "sp", "p2f", "at"}
 LastAt(a) == LastIndexOf(a, "at")
 GoUserinfo(a) == IF LastAt(a) = 0 THEN <<>> ELSE Take(a, LastAt(a) - 1)
@@ -115,10 +115,10 @@ BHost(a, sch) ==
 BrowserResolve(s0) ==
     LET s == Pre(s0) IN
     IF s = <<>> THEN [kind |-> "same", host |-> <<>>, port |-> "", sch |-> "base"]
-    ELSE IF s[1] \in {"http", "https"} THEN
+    ELSE IF s[1] \in {"http", "https", "HTTPS", "hTtP"} THEN        \* schemes are case-insensitive for a browser
          \* special scheme.  Same as the base scheme and not followed by a slash: relative to the base; otherwise authority after any slashes
          \* (we do not know whether the page is http or https: treat both readings as possible and take the dangerous one)
-         BHost(BAuthority(SkipSlashes(Tail(s))), IF s[1] = "http" THEN "http" ELSE "https")
+         BHost(BAuthority(SkipSlashes(Tail(s))), IF s[1] \in {"http", "hTtP"} THEN "http" ELSE "https")
     ELSE IF Len(s) >= 2 /\ s[1] = "seg" /\ s[2] = "col" THEN [kind |-> "other", host |-> <<>>, port |-> "", sch |-> "other"]      \* "path:" is a scheme
     ELSE IF Slash(s[1]) /\ Len(s) >= 2 /\ Slash(s[2]) THEN BHost(BAuthority(SkipSlashes(s)), "base")                       \* protocol-relative
     ELSE [kind |-> "same", host |-> <<>>, port |-> "", sch |-> "base"]
@@ -129,8 +129,8 @@ Safe(r, wl) == r.kind \in {"same", "invalid"} \/ (r.kind = "host" /\ HostAllowed
 VARIABLE c
 \* scheme / host / port interplay (default ports, several ports, userinfo) enumerated structurally on top of the grammar
 PortStrs == { <<sch, "sl", "sl">> \o h \o p \o t :
-                sch \in {"http", "https"},
-                h \in {<<"good">>, <<"evil">>, <<"evil", "at", "good">>, <<"good", "at", "evil">>, <<"seg", "dot", "good">>},
+                sch \in {"http", "https", "HTTPS", "hTtP"},
+                h \in {<<"good">>, <<"evil">>, <<"evil", "at", "good">>, <<"good", "at", "evil">>, <<"seg", "dot", "good">>, <<"v6">>, <<"v6map">>, <<"good", "at", "v6">>},
                 p \in {<<>>, <<"col">>, <<"col", "p80">>, <<"col", "p443">>, <<"col", "port">>, <<"col", "p80", "col", "p443">>, <<"col", "p443", "at", "good">>},
                 t \in {<<>>, <<"sl">>, <<"sl", "seg">>, <<"q", "seg">>, <<"h">>, <<"bs", "evil">>} }
 Init == \E s \in Strs \cup PortStrs, wl \in WLs : c = [s |-> s, wl |-> wl]
